@@ -3,6 +3,7 @@ import PartituraModel.Model.Pedal
 import PartituraModel.Model.PedalDict
 import PartituraModel.Model.PedalTypes
 import PartituraModel.Model.PedalHist
+import PartituraModel.Model.PedalOrder
 
 open Wire Model Model.Pedal
 
@@ -104,15 +105,18 @@ def pPerfPart : P PerfPart := do
   let ps ← list (opt int)
   pure { thr := thr, mpq := mpq, ppq := ppq, notes := ns, controls := cs, programs := ps }
 
-/-- `Performance(parts)` (track numbers made unique) followed by `.note_array()` -/
-def perfNoteArray (uid : Bool) (pps : List PerfPart) : Option String :=
+/-- `Performance(parts)` (track numbers made unique) followed by `.note_array()`: num_tracks and the rows -/
+def perfNoteRows (uid : Bool) (pps : List PerfPart) : Option (Nat × List ARow) :=
   (mapM' (fun (pp : PerfPart) => if pp.mpq = 0 then none else buildRaw pp.notes pp.controls pp.thr) pps).bind fun built =>
     let pts : List PartTracks := (built.zip pps).map fun bp =>
       { notes := bp.1.notes.map (·.track), controls := bp.2.controls.map (·.track), programs := bp.2.programs }
     (sanitizeSorted pts).bind fun san =>
       let rows := ((built.zip pps).zip san).map fun x =>
         partRows x.1.2.mpq x.1.2.ppq { x.1.1 with notes := storeTracks x.1.1.notes x.2.1 }
-      (perfRows uid rows).map fun r => fmtTuple [fmtNat (numTracks pts), fmtList fmtARow r]
+      (perfRows uid rows).map fun r => (numTracks pts, r)
+
+def perfNoteArray (uid : Bool) (pps : List PerfPart) : Option String :=
+  (perfNoteRows uid pps).map fun x => fmtTuple [fmtNat x.1, fmtList fmtARow x.2]
 
 
 -- ------------------------------------------------------------------ round 5
@@ -173,8 +177,7 @@ def pCtlOp : P CtlOp := do
   | "replace" => do let cs ← list pControl; pure (.replace cs)
   | _ => P.fail
 
-def pXOp : P XOp := do
-  let k ← tok
+def pXOpOf (k : String) : P XOp := do
   match k with
   | "T" => do let t ← int; pure (.base (.thr t))
   | "S" => do let i ← nat; let o ← pSetOp; pure (.base (.set i o))
@@ -184,6 +187,23 @@ def pXOp : P XOp := do
   | "Y" => do let i ← nat; pure (.copyNote i)
   | "C" => do let c ← pCtlOp; pure (.ctl c)
   | _ => P.fail
+
+def pXOp : P XOp := do
+  let k ← tok
+  pXOpOf k
+
+/-- round 6: a statement of a history in which the note list is also reordered -/
+def pYOp : P YOp := do
+  let k ← tok
+  match k with
+  | "O" => do
+    let w ← tok
+    match w with
+    | "sort" => pure (.ord .sort)
+    | "desc" => pure (.ord .sortDesc)
+    | "rev" => pure (.ord .reverse)
+    | _ => P.fail
+  | _ => do let o ← pXOpOf k; pure (.x o)
 
 def fmtCtl (c : Control) : String := fmtTuple [fmtInt c.number, fmtRat c.time, fmtInt c.value]
 
@@ -239,6 +259,41 @@ def handle5 (ts : List String) : Option String :=
                     fmtList fmtARow (partRows mpq ppq q),
                     fmtNat (partNumTracks { notes := q.notes.map (·.track), controls := q.controls.map (·.track), programs := [] }),
                     fmtList fmtCtl (ctlAfter cs ops)]
+  | "ohist" :: rest =>
+    -- round 6: as xhist, the note list is also sorted / reversed
+    some <| orErr <| (run (do let thr ← int; let mpq ← nat; let ppq ← nat; let ns ← list pRaw; let cs ← list pControl
+                              let ops ← list pYOp; pure (thr, mpq, ppq, ns, cs, ops)) rest).bind
+      fun (thr, mpq, ppq, ns, cs, ops) =>
+        if mpq = 0 then none else (buildRaw ns cs thr).map fun p =>
+          let r := yrun p ops
+          let q := lastX p r
+          fmtTuple [fmtView p,
+                    fmtList (fun (x : PPart × Obs) => fmtTuple [fmtObs x.2, fmtView x.1, fmtList fmtCtl x.1.controls]) r,
+                    fmtList fmtARow (partRows mpq ppq q)]
+  | "fnap" :: rest =>
+    -- round 6: PerformedPart.from_note_array(Performance(pp).note_array()[columns]); the rebuilt part and its own note_array()
+    some <| orErr <| (run (do let pp ← pPerfPart; let a ← bool; let b ← bool; let c ← bool; let d ← bool; let e ← bool
+                              pure (pp, ({ sec := a, vel := b, hasId := c, track := d, chan := e } : ArrFields))) rest).bind
+      fun (pp, f) =>
+        (perfNoteRows true [pp]).bind fun x =>
+          (fromArray f x.2).map fun q =>
+            fmtTuple [fmtList fmtARow x.2, fmtView q, fmtList fmtARow (partRows defaultMpq defaultPpq q)]
+  | "cmp" :: rest =>
+    -- round 6: two performed notes compared: a < b, a <= b, a > b, a >= b, a == b, hash(a) == hash(b), str(a)
+    some <| orErr <| (run (do let a ← pRaw; let b ← pRaw; pure (a, b)) rest).bind fun (ra, rb) =>
+      (initNote ra).bind fun a => (initNote rb).map fun b =>
+        fmtTuple [fmtBool (noteLt a b), fmtBool (noteLe a b), fmtBool (noteGt a b), fmtBool (noteGe a b),
+                  fmtBool (noteEq a b), fmtBool (decide (hashKey a = hashKey b)), noteStr a]
+  | "ticks" :: rest =>
+    -- round 6: seconds_to_midi_ticks(t, mpq, ppq)
+    some <| orErr <| (run (do let mpq ← nat; let ppq ← nat; let ts ← list rat; pure (mpq, ppq, ts)) rest).bind
+      fun (mpq, ppq, ts) =>
+        if mpq = 0 || ppq = 0 then none else some (fmtList (fun t => fmtInt (secToTickG t mpq ppq)) ts)
+  | "tickback" :: rest =>
+    -- round 6: midi_ticks_to_seconds(seconds_to_midi_ticks(t, mpq, ppq), mpq, ppq)
+    some <| orErr <| (run (do let mpq ← nat; let ppq ← nat; let ts ← list rat; pure (mpq, ppq, ts)) rest).bind
+      fun (mpq, ppq, ts) =>
+        if mpq = 0 || ppq = 0 then none else some (fmtList (fun t => fmtRat (tickToSecG (secToTickG t mpq ppq) mpq ppq)) ts)
   | "defaults" :: rest =>
     -- PerformedPart(notes, controls=cs) with the keyword defaults; adjust_offsets_w_sustain(notes, cs) called directly
     some <| orErr <| (run (do let ns ← list pNote; let cs ← list pControl; pure (ns, cs)) rest).bind fun (ns, cs) =>
